@@ -340,12 +340,12 @@ inline bool problemNontrivial(const Problem &p)
 
 inline const std::vector<int> &nListQuick()
 {
-    static const std::vector<int> v{1, 2, 3, 4, 5, 6, 7, 8, 9, 10, 33};
+    static const std::vector<int> v{1, 2, 3, 4, 5, 6, 7, 8, 9, 10, 33, 36, 50};
     return v;
 }
 inline const std::vector<int> &nListThorough()
 {
-    static const std::vector<int> v{1, 2, 3, 4, 5, 6, 7, 8, 9, 10, 16, 31, 32, 33, 64};
+    static const std::vector<int> v{1, 2, 3, 4, 5, 6, 7, 8, 9, 10, 16, 31, 32, 33, 36, 44, 50, 57, 64, 77, 100};
     return v;
 }
 } // namespace vf
